@@ -21,7 +21,10 @@ ENTRY = {
                 "non-trivial = at least one preemption",
         "assumptions": ["the scheduler's hand-off is invisible to the race detector (plain memory + runtime-internal atomics in //go:norace functions): verified by the self-test mutants",
                         "scheduling points at channel operations, select, close, Lock/Unlock/Wait/Done in the instrumented functions; code between two points runs as one step and is judged by the detector only",
-                        "the detector's shadow history is bounded; accesses inside cgo/ZMQ are invisible; status, record and summary consumers are goroutines that serialise the data as the real publishers do"],
+                        "the detector's shadow history is bounded; accesses inside cgo/ZMQ are invisible; status, record and summary consumers are goroutines that serialise the data as the real publishers do",
+                        "data time: every block of the scripted source covers 24 ms; blocks are contiguous in data time except in the data-timeline scenario, where two of four blocks follow 3.5 s and 2.2 s of lost data time "
+                        "(frame number and time stamp jump together), so that one core-loop pass ends 2-4 one-second trigger-rate periods and hands the status thread several messages in a row; "
+                        "a single block that itself holds more than 1 s of samples is not enumerated (the broker sees the same sequence of period ends either way)"],
         "technique": "stateless model checking of the real goroutines under a controlled scheduler in a race-detector build (preemption-bounded DFS); the race detector is the per-execution monitor",
     },
 }
